@@ -41,6 +41,27 @@ func init() {
 			{Name: "reply target pre-seeded from the request", ExpectRule: "C22.R2", Edits: []Edit{
 				{File: "internal/socks5/udp.go", Old: "\ta.ExpectedClientAddr = addr\n", New: "\ta.ExpectedClientAddr = addr\n\ta.ActualClientAddr = addr\n"},
 			}},
+			{Name: "no owner known: first sender accepted and pinned (seed C22-a class)", ExpectRule: "C22.R1", Edits: []Edit{
+				{File: "internal/socks5/udp.go", Old: "\t\towner := a.ownerIP()\n\t\tif owner == nil || !clientAddr.IP.Equal(owner) {\n\t\t\tcontinue\n\t\t}\n", New: "\t\tif !a.fromOwner(clientAddr) {\n\t\t\tcontinue\n\t\t}\n"},
+				{File: "internal/socks5/udp.go", Old: "// ReadLoop reads datagrams from the SOCKS5 client", New: "func (a *UDPAssociation) fromOwner(addr *net.UDPAddr) bool {\n\tif owner := a.ownerIP(); owner != nil {\n\t\treturn addr.IP.Equal(owner)\n\t}\n\treturn a.TCPConn != nil && a.TCPConn.RemoteAddr() == nil\n}\n\n// ReadLoop reads datagrams from the SOCKS5 client"},
+			}},
+			{Name: "owner learned from the first datagram", ExpectRule: "C22.R1", Edits: []Edit{
+				{File: "internal/socks5/udp.go", Old: "\t\towner := a.ownerIP()\n", New: "\t\ta.mu.Lock()\n\t\tif a.ExpectedClientAddr == nil {\n\t\t\ta.ExpectedClientAddr = clientAddr\n\t\t}\n\t\ta.mu.Unlock()\n\t\towner := a.ownerIP()\n"},
+			}},
+			{Name: "source check applied to the previous datagram's sender", ExpectRule: "C22.R1", Edits: []Edit{
+				{File: "internal/socks5/udp.go", Old: "\tbuf := make([]byte, 65535) // Max UDP datagram size\n", New: "\tbuf := make([]byte, 65535) // Max UDP datagram size\n\tvar last *net.UDPAddr\n"},
+				{File: "internal/socks5/udp.go", Old: "\t\tif owner == nil || !clientAddr.IP.Equal(owner) {\n\t\t\tcontinue\n\t\t}\n", New: "\t\tprev := last\n\t\tlast = clientAddr\n\t\tif owner == nil || prev == nil || !prev.IP.Equal(owner) {\n\t\t\tcontinue\n\t\t}\n"},
+			}},
+			{Name: "second datagram read after the check is relayed unchecked", ExpectRule: "C22.R1", Edits: []Edit{
+				{File: "internal/socks5/udp.go", Old: "\t\t// Parse SOCKS5 UDP header\n\t\theader, payload, err := ParseUDPHeader(buf[:n])\n", New: "\t\tif n < 10 {\n\t\t\tn, _, err = a.UDPConn.ReadFromUDP(buf)\n\t\t\tif err != nil {\n\t\t\t\tcontinue\n\t\t\t}\n\t\t}\n\t\t// Parse SOCKS5 UDP header\n\t\theader, payload, err := ParseUDPHeader(buf[:n])\n"},
+			}},
+			{Name: "recorded address is one reused struct refilled on every read (seed C22-b class)", ExpectRule: "C22.R2", Edits: []Edit{
+				{File: "internal/socks5/udp.go", Old: "\tbuf := make([]byte, 65535) // Max UDP datagram size\n", New: "\tbuf := make([]byte, 65535) // Max UDP datagram size\n\tclientAddr := &net.UDPAddr{}\n"},
+				{File: "internal/socks5/udp.go", Old: "\t\tn, clientAddr, err := a.UDPConn.ReadFromUDP(buf)\n\t\tif err != nil {\n\t\t\tif a.IsClosed() {\n\t\t\t\treturn\n\t\t\t}\n\t\t\tcontinue\n\t\t}\n", New: "\t\tn, from, err := a.UDPConn.ReadFromUDPAddrPort(buf)\n\t\tif err != nil {\n\t\t\tif a.IsClosed() {\n\t\t\t\treturn\n\t\t\t}\n\t\t\tcontinue\n\t\t}\n\t\tclientAddr.IP = from.Addr().AsSlice()\n\t\tclientAddr.Port = int(from.Port())\n"},
+			}},
+			{Name: "recorded address refreshed in place before the check", ExpectRule: "C22.R2", Edits: []Edit{
+				{File: "internal/socks5/udp.go", Old: "\t\towner := a.ownerIP()\n", New: "\t\ta.mu.Lock()\n\t\tif a.ActualClientAddr != nil {\n\t\t\ta.ActualClientAddr.Port = clientAddr.Port\n\t\t}\n\t\ta.mu.Unlock()\n\t\towner := a.ownerIP()\n"},
+			}},
 			{Name: "replies sent to the address named in the request", ExpectRule: "C22.R3", Edits: []Edit{
 				{File: "internal/socks5/udp.go", Old: "\tclientAddr := a.ActualClientAddr\n", New: "\tclientAddr := a.ExpectedClientAddr\n"},
 			}},
@@ -58,6 +79,10 @@ func init() {
 			}},
 			{Name: "rewrite: verdict kept in a bool variable", Edits: []Edit{
 				{File: "internal/socks5/udp.go", Old: "\t\tif owner == nil || !clientAddr.IP.Equal(owner) {\n\t\t\tcontinue\n\t\t}\n", New: "\t\tfromOwner := owner != nil && clientAddr.IP.Equal(owner)\n\t\tif !fromOwner {\n\t\t\tcontinue\n\t\t}\n"},
+			}},
+			{Name: "rewrite: allocation-free read, fresh UDPAddr built per datagram; port of the recorded client refreshed after the check", Edits: []Edit{
+				{File: "internal/socks5/udp.go", Old: "\t\tn, clientAddr, err := a.UDPConn.ReadFromUDP(buf)\n\t\tif err != nil {\n\t\t\tif a.IsClosed() {\n\t\t\t\treturn\n\t\t\t}\n\t\t\tcontinue\n\t\t}\n", New: "\t\tn, from, err := a.UDPConn.ReadFromUDPAddrPort(buf)\n\t\tif err != nil {\n\t\t\tif a.IsClosed() {\n\t\t\t\treturn\n\t\t\t}\n\t\t\tcontinue\n\t\t}\n\t\tclientAddr := &net.UDPAddr{IP: from.Addr().AsSlice(), Port: int(from.Port())}\n"},
+				{File: "internal/socks5/udp.go", Old: "\t\tif a.ActualClientAddr == nil {\n\t\t\ta.ActualClientAddr = clientAddr\n\t\t}\n", New: "\t\tif a.ActualClientAddr == nil {\n\t\t\ta.ActualClientAddr = clientAddr\n\t\t} else {\n\t\t\ta.ActualClientAddr.Port = clientAddr.Port\n\t\t}\n"},
 			}},
 			{Name: "rewrite: reply address copied into a fresh UDPAddr", Edits: []Edit{
 				{File: "internal/socks5/udp.go", Old: "\t_, err := a.UDPConn.WriteToUDP(packet, clientAddr)\n", New: "\tdst := &net.UDPAddr{IP: clientAddr.IP, Port: clientAddr.Port}\n\t_, err := a.UDPConn.WriteToUDP(packet, dst)\n"},
@@ -512,6 +537,32 @@ func c22ReachableUnverified(reads []ssa.Instruction, target ssa.Instruction, ver
 	return false
 }
 
+// c22SharedAcrossReads: the pointer value v can be an object that was allocated before (not
+// after) the datagram read, i.e. one object reused for all datagrams. Returns that allocation.
+func c22SharedAcrossReads(v ssa.Value, reads []ssa.Instruction) ssa.Instruction {
+	for _, leaf := range kit.PhiLeaves(v) {
+		var al ssa.Instruction
+		switch x := leaf.(type) {
+		case *ssa.Alloc:
+			al = x
+		case *ssa.MakeSlice:
+			al = x
+		default:
+			continue
+		}
+		fresh := false
+		for _, rd := range reads {
+			if rd.Parent() == al.Parent() && kit.Precedes(rd, al) {
+				fresh = true
+			}
+		}
+		if !fresh {
+			return al
+		}
+	}
+	return nil
+}
+
 // c22Lift maps an instruction inside a closure to the instruction of the enclosing named
 // function that creates the closure.
 func c22Lift(in ssa.Instruction) ssa.Instruction {
@@ -672,6 +723,10 @@ func runC22(p *kit.Program, r *kit.Report) {
 				r.Violation("C22.R2", key, pos, "the recorded client address has origin %s, not the source of a received datagram: replies can be directed to an address that never proved to be the client", o)
 				continue
 			}
+			if shared := c22SharedAcrossReads(acc.Val, rd); shared != nil {
+				r.Violation("C22.R2", key, pos, "the recorded client address points to an object allocated at %s, before the datagram was read: the same object is refilled for every later datagram, so after a stranger's (rejected) datagram the recorded reply target is the stranger's address", p.Pos(shared.Pos()))
+				continue
+			}
 			bad := c22ReachableUnverified(rd, in, verified[top])
 			r.Decide(!bad, "C22.R2", key, pos,
 				"the source address is recorded only after it compared equal to the owner",
@@ -713,6 +768,85 @@ func runC22(p *kit.Program, r *kit.Report) {
 		r.Decide(okAll, "C22.R2", key, pos,
 			fmt.Sprintf("setter: all %d call site(s) pass a verified datagram source", len(callers)),
 			"the reply target is set through a setter "+why+": replies can go to an address that never proved to be the client")
+	}
+
+	// ---- R2b: the recorded address must not be rewritten in place (through the stored pointer)
+	nInPlace := 0
+	for _, fn := range p.RepoFuncs() {
+		kit.Instrs(fn, func(in ssa.Instruction) {
+			st, ok := in.(*ssa.Store)
+			if !ok {
+				return
+			}
+			var ptr ssa.Value
+			switch a := st.Addr.(type) {
+			case *ssa.FieldAddr:
+				ptr = a.X
+			case *ssa.IndexAddr:
+				// element of the recorded IP slice: base is a load of <recorded>.IP
+				if f, b := kit.LoadedField(a.X); f != nil && c22IsNetStructField(f) {
+					ptr = b
+				}
+			default:
+				ptr = st.Addr
+			}
+			if f, _ := kit.LoadedField(ptr); f != cx.fActual || f == nil {
+				return
+			}
+			nInPlace++
+			top := kit.TopLevel(fn)
+			key := fmt.Sprintf("%s rewrites the recorded client address in place #%d", kit.FuncName(top), nInPlace)
+			pos := p.Pos(st.Pos())
+			rd, isReader := reads[top]
+			o := cx.origin(st.Val, nil, 0, map[ssa.Value]bool{})
+			switch {
+			case !isReader || fn != top:
+				r.Violation("C22.R2", key, pos, "the address replies are sent to is modified outside the verified receive path")
+			case !o.pureSource():
+				r.Violation("C22.R2", key, pos, "the recorded client address is overwritten with a value of origin %s: replies can be directed to an address that never proved to be the client", o)
+			default:
+				bad := c22ReachableUnverified(rd, st, verified[top])
+				r.Decide(!bad, "C22.R2", key, pos, "updated only from a verified datagram source",
+					"the recorded reply target is overwritten from a datagram before/without the source check")
+			}
+		})
+	}
+	r.Count("recorded_address_in_place_writes", nInPlace)
+
+	// ---- R1b: owner identities are not learned from datagrams
+	for i, acc := range p.FieldAccessesOfKind(cx.fExpected, kit.FieldStore, kit.FieldAddrUse) {
+		top := kit.TopLevel(acc.Fn)
+		key := fmt.Sprintf("%s store ExpectedClientAddr #%d", kit.FuncName(top), i+1)
+		pos := p.Pos(acc.Instr.Pos())
+		if acc.Kind == kit.FieldAddrUse {
+			r.Violation("C22.R1", key, pos, "the address of ExpectedClientAddr escapes: the owner identity the source check relies on can be rewritten anywhere")
+			continue
+		}
+		var os []c22Orig
+		if prm, isParam := acc.Val.(*ssa.Parameter); isParam && acc.Fn == top {
+			pi := -1
+			for k, q := range top.Params {
+				if q == prm {
+					pi = k
+				}
+			}
+			for _, c := range p.StaticCallers(top) {
+				if pi >= 0 && pi < len(c.Common().Args) {
+					os = append(os, cx.origin(c.Common().Args[pi], nil, 0, map[ssa.Value]bool{}))
+				}
+			}
+		} else {
+			os = append(os, cx.origin(acc.Val, nil, 0, map[ssa.Value]bool{}))
+		}
+		bad := ""
+		for _, o := range os {
+			if o.source || o.actual {
+				bad = o.String()
+			}
+		}
+		r.Decide(bad == "", "C22.R1", key, pos,
+			"the expected client address comes from the request, not from a received datagram",
+			"the owner identity ExpectedClientAddr is set from a value of origin "+bad+": whoever sends the first datagram defines who the owner is, and the source check then admits that sender")
 	}
 
 	// ---- R3: writes on the association socket
